@@ -63,7 +63,7 @@ func recvChild(args []string) int {
 		fmt.Fprintln(os.Stderr, "accept:", err)
 		return 3
 	}
-	opts := transfer.Options{Resume: true, NoRootDir: true, HashAlg: "crc32c", ParallelFiles: streams}
+	opts := transfer.Options{Resume: os.Getenv("VERIF_RECV_NORESUME") == "", NoRootDir: true, HashAlg: "crc32c", ParallelFiles: streams}
 	_, err = transfer.RecvManifestMultiStream(ctx, conn, outDir, opts)
 	_ = conn.Close()
 	if err != nil {
@@ -126,6 +126,10 @@ type killStep struct {
 	// this one: "" | "delete-data" | "shorten-data" (the data files that have a
 	// sidecar are removed / cut to half; the resume metadata stays)
 	Pre string `json:"pre,omitempty"`
+	// NoResume: this run's receiver (and sender) have resume switched off (a
+	// library user may do that; the CLI receiver cannot); the resume metadata
+	// of earlier runs stays where it is
+	NoResume bool `json:"no_resume,omitempty"`
 }
 
 type killCase struct {
@@ -143,7 +147,7 @@ type senderRun struct {
 	CtrlRecv []byte // receiver->sender control bytes
 }
 
-func runSenderAgainst(ctx context.Context, port int, w *killWorkload, src string, childDead <-chan struct{}, abortAt, stallAt int64) senderRun {
+func runSenderAgainst(ctx context.Context, port int, w *killWorkload, src string, childDead <-chan struct{}, abortAt, stallAt int64, noResume bool) senderRun {
 	var out senderRun
 	udp, err := net.ListenUDP("udp4", &net.UDPAddr{IP: net.IPv4(127, 0, 0, 1)})
 	if err != nil {
@@ -197,7 +201,7 @@ func runSenderAgainst(ctx context.Context, port int, w *killWorkload, src string
 		}
 	}()
 	cs, streams := w.CS, w.Streams
-	opts := transfer.Options{ChunkSize: cs, ParallelFiles: streams, Resume: true, HashAlg: "crc32c", ResolveFilePath: res,
+	opts := transfer.Options{ChunkSize: cs, ParallelFiles: streams, Resume: !noResume, HashAlg: "crc32c", ResolveFilePath: res,
 		ParamSource: func() transfer.RuntimeParams { return transfer.RuntimeParams{ChunkSize: cs, ParallelFiles: streams} }}
 	out.Err = transfer.SendManifestMultiStream(sctx, deco.Wrap(), ".", m, opts)
 	_ = conn.Close()
@@ -252,10 +256,14 @@ func runInterrupted(e *Env, w *killWorkload, src, outDir, hookSpec string, abort
 	if len(opt) > 0 {
 		stallAt = opt[0]
 	}
+	noResume := len(opt) > 1 && opt[1] != 0
 	var cr childResult
 	logPath := filepath.Join(filepath.Dir(outDir), fmt.Sprintf("hook-%d.log", time.Now().UnixNano()))
 	cmd := exec.Command(os.Args[0], "recv-child", outDir, strconv.Itoa(w.Streams))
 	cmd.Env = append(os.Environ(), "VERIFHOOK="+hookSpec, "VERIFHOOK_LOG="+logPath)
+	if noResume {
+		cmd.Env = append(cmd.Env, "VERIF_RECV_NORESUME=1")
+	}
 	stdout, _ := cmd.StdoutPipe()
 	var stderr strings.Builder
 	cmd.Stderr = &stderr
@@ -281,7 +289,7 @@ func runInterrupted(e *Env, w *killWorkload, src, outDir, hookSpec string, abort
 	select {
 	case port := <-portCh:
 		ctx, cancel := context.WithTimeout(context.Background(), 40*time.Second)
-		sr = runSenderAgainst(ctx, port, w, src, dead, abortAt, stallAt)
+		sr = runSenderAgainst(ctx, port, w, src, dead, abortAt, stallAt, noResume)
 		cancel()
 	case <-dead:
 		cr.PortErr = "child exited before printing its port: " + stderr.String()
@@ -452,6 +460,11 @@ func runKillEngine(e *Env, c04, c05 bool) {
 			}
 			add(w.Name, steps...)
 		}
+		// a run without resume in between: the metadata of the earlier run stays
+		for k := 2; k <= e.Pick(6, 10); k += 2 {
+			add(w.Name, killStep{Site: "recv.chunk.afterMark", K: k, Action: "delaykill", Slow: 45},
+				killStep{Site: "recv.chunk.afterWrite", K: 1 + k%3, Action: "kill", NoResume: true})
+		}
 		// the data file disappears or shrinks under a persisted sidecar between
 		// the runs; the next run is killed right after its first chunk
 		for _, pre := range []string{"delete-data", "shorten-data"} {
@@ -543,7 +556,11 @@ func runKillEngine(e *Env, c04, c05 bool) {
 				}
 				e.R.Count("data_files_removed_or_cut_under_a_sidecar")
 			}
-			cr, _ := runInterrupted(e, &ws, src, outDir, spec, abortAt, st.StallAt)
+			nr := int64(0)
+			if st.NoResume {
+				nr = 1
+			}
+			cr, _ := runInterrupted(e, &ws, src, outDir, spec, abortAt, st.StallAt, nr)
 			if cr.PortErr != "" {
 				e.R.Inconcl(c.ID + ": " + cr.PortErr)
 				return
@@ -668,6 +685,9 @@ func runKillEngine(e *Env, c04, c05 bool) {
 						}
 						if st.Pre != "" {
 							key += ":after-" + st.Pre
+						}
+						if st.NoResume {
+							key += ":in-a-run-without-resume"
 						}
 						e.R.Violate(key, fmt.Sprintf("after %s@%d (%s, chunk size %d): %s", st.Site, st.K, st.Action, ws.CS, v), c, map[string]any{"step": si})
 					}
@@ -799,6 +819,9 @@ func chainKey(c killCase) string {
 		}
 		if s.Pre != "" {
 			p = s.Pre + ">" + p
+		}
+		if s.NoResume {
+			p += ":noresume"
 		}
 		parts = append(parts, p)
 	}
